@@ -40,7 +40,7 @@ PLAN = {
     "C17": dict(engine="vstore", level="exploration"),
     "C18": dict(engine="vconc", level="exploration", race=True),
     "C19": dict(engine="vroute", level="exploration"),
-    "C20": dict(engine="vproc", level="exploration", server=True),
+    "C20": dict(engine="vproc", level="exploration", server=True, extra=["vroute"]),
 }
 
 RULES = {}  # filled from rules.json
